@@ -67,6 +67,7 @@ func (ww *conversionVisitor) visitServiceNode(node *sourcewalk.ServiceNode) {
 
 	if node.ServiceOptions != nil {
 		service.desc.Options = &descriptorpb.ServiceOptions{}
+		serviceWalker.file.ensureImport(j5ExtImport)
 		proto.SetExtension(service.desc.Options, ext_j5pb.E_Service, node.ServiceOptions)
 	}
 
@@ -152,6 +153,7 @@ func (ww *conversionVisitor) visitServiceMethodNode(service *serviceBuilder, nod
 	proto.SetExtension(methodBuilder.desc.Options, annotations.E_Http, annotation)
 
 	if method.Options != nil {
+		ww.file.ensureImport(j5ExtImport)
 		proto.SetExtension(methodBuilder.desc.Options, ext_j5pb.E_Method, method.Options)
 	}
 
